@@ -100,8 +100,8 @@ FRAME_TABLE = {
     'eqsig.im.calc_unit_kinetic_energy': (dict(acc_signal=SIG()), {}),
     'eqsig.im.calc_n_cyc_array_w_power_law': (dict(values=A_('a'), a_ref=R_('a_ref'), b=Q('0.3')), {}),
     'eqsig.im.calc_cyc_amp_array_w_power_law': (dict(values=A_('a'), n_cyc=R_('ncyc'), b=Q('0.3')), {}),
-    'eqsig.im.calc_cyc_amp_gm_arrays_w_power_law': (dict(values0=A_('a'), values1=A_('b'), n_cyc=R_('ncyc'), b=Q('0.3')), {}),
-    'eqsig.im.calc_cyc_amp_combined_arrays_w_power_law': (dict(values0=A_('a'), values1=A_('b'), n_cyc=R_('ncyc'), b=Q('0.3')), {}),
+    'eqsig.im.calc_cyc_amp_gm_arrays_w_power_law': (dict(values0=A_('a'), values1=A_('b'), n_cyc=R_('ncyc'), b=Q('0.3')), {'n': 3}),
+    'eqsig.im.calc_cyc_amp_combined_arrays_w_power_law': (dict(values0=A_('a'), values1=A_('b'), n_cyc=R_('ncyc'), b=Q('0.3')), {'n': 3}),
     'eqsig.im.max_fa_period': (dict(asig=SIG()), {}),
     'eqsig.fns.average.get_section_average': (dict(series=SIG(), start=0, end=-1, index=True), {}),
     'eqsig.fns.average.calc_step_fn_vals_error': (dict(values=A_('a')), {}),
@@ -144,8 +144,10 @@ FRAME_TABLE = {
 @unit('C05', 'array-function-leaves-arguments-unchanged', functions=sorted(FRAME_TABLE),
       cases=[dict(fn=f) for f in sorted(FRAME_TABLE)], modes=('bounded',), sizes=dict(n=[4], P=[2]), budget_ms=5000)
 def frame_bounded(V, fn):
-    spec, _ = FRAME_TABLE[fn]
+    spec, override = FRAME_TABLE[fn]
     st = {'arrays': {}, 'sigs': {}}
+    _size = V.size
+    V.size = lambda name, lo=0: min(_size(name, lo), override.get(name, 10 ** 6))       # smaller size for path-heavy functions
 
     def build(v):
         if isinstance(v, tuple) and v and v[0] == 'arr':
